@@ -1,6 +1,7 @@
 #!/usr/bin/env python3
-"""Regression of the checks against the stored seeded changes: applies each /verif/seeded/<id>/patch.diff to /repo, runs the check of
-the property it breaks (quick tier, reduced seeds), restores /repo, and writes /verif/seeded/RESULTS.md.
+"""Regression of the checks against the stored seeded changes: applies each /verif/seeded/<id>/patch.diff to a scratch copy of /repo's
+committed sources (outside /repo and /verif, removed at the end), runs the check of the property it breaks against that copy (quick tier,
+reduced seeds), and writes /verif/seeded/RESULTS.md.
 usage: tools/run_seeded_all.py [--seeds N] [id ...]"""
 import json, os, subprocess, sys, time
 ROOT = os.path.dirname(os.path.dirname(os.path.abspath(__file__)))
@@ -13,27 +14,29 @@ def main():
     ids = args or sorted(d for d in os.listdir(os.path.join(ROOT, "seeded")) if os.path.isdir(os.path.join(ROOT, "seeded", d)))
     if sh("git", "-C", "/repo", "diff", "--quiet").returncode != 0:
         print("/repo has uncommitted changes"); sys.exit(2)
+    PRISTINE, SCR, BLD, EV = "/var/tmp/tbfsim_seedall_pristine", "/var/tmp/tbfsim_seedall_repo", "/var/tmp/tbfsim_seedall_build", "/var/tmp/tbfsim_seedall_ev"
+    for d in (PRISTINE, SCR): sh("rm", "-rf", d)
+    sh("rsync", "-a", "--exclude", "_build", "--exclude", ".git", "/repo/", PRISTINE + "/")
+    env = dict(os.environ, TBFSIM_REPO=SCR, TBFSIM_BUILD=BLD)
     rows = []
     for sid in ids:
         d = os.path.join(ROOT, "seeded", sid)
         meta = json.load(open(os.path.join(d, "meta.json")))
         prop = meta["breaks_property"]
-        r = sh("git", "-C", "/repo", "apply", os.path.join(d, "patch.diff"))
-        if r.returncode != 0: r = sh("git", "-C", "/repo", "apply", "--3way", os.path.join(d, "patch.diff"))
+        sh("rsync", "-a", "--delete", PRISTINE + "/", SCR + "/")
+        sh("find", SCR + "/src", "-type", "f", "-exec", "touch", "{}", "+")
+        r = sh("patch", "-p1", "-s", "-i", os.path.join(d, "patch.diff"), cwd=SCR)
         if r.returncode != 0:
-            rows.append((sid, prop, "patch does not apply", "")); sh("git", "-C", "/repo", "checkout", "--", "."); continue
-        sh("git", "-C", "/repo", "reset", "-q")
-        try:
-            t0 = time.time()
-            n = seeds if prop != "C12" else str(max(20, int(seeds) // 15))
-            if prop == "C15": n = str(max(100, int(seeds) // 4))
-            c = sh("python3", os.path.join(ROOT, "tools", "check.py"), prop, "--seeds", n, "--no-minimise", "--evidence-dir", "/var/tmp/tbfsim_seed_ev", "--replay-dir", "/var/tmp/tbfsim_seed_ev")
-            keys = [l.split(" -- ")[0].replace("violation: ", "") for l in c.stdout.splitlines() if l.startswith("violation: ")]
-            rows.append((sid, prop, "DETECTED (exit %d, %.0fs)" % (c.returncode, time.time() - t0) if c.returncode == 1 else "exit %d" % c.returncode, "; ".join(keys[:4])))
-        finally:
-            sh("git", "-C", "/repo", "checkout", "--", ".")
+            rows.append((sid, prop, "patch does not apply", "")); print(rows[-1], r.stdout[-300:], flush=True); continue
+        t0 = time.time()
+        n = seeds if prop != "C12" else str(max(20, int(seeds) // 5))
+        if prop == "C15": n = str(max(100, int(seeds) // 4))
+        n = str(meta.get("regress_seeds", n))     # changes that need a rare conjunction state their own budget (still below the quick tier's)
+        c = sh("python3", os.path.join(ROOT, "tools", "check.py"), prop, "--seeds", n, "--no-minimise", "--evidence-dir", EV, "--replay-dir", EV, env=env)
+        keys = [l.split(" -- ")[0].replace("violation: ", "") for l in c.stdout.splitlines() if l.startswith("violation: ")]
+        rows.append((sid, prop, "DETECTED (exit %d, %.0fs)" % (c.returncode, time.time() - t0) if c.returncode == 1 else "exit %d" % c.returncode, "; ".join(keys[:4])))
         print(rows[-1], flush=True)
-    sh("rm", "-rf", "/var/tmp/tbfsim_seed_ev")
+    for d in (PRISTINE, SCR, BLD, EV): sh("rm", "-rf", d)
     with open(os.path.join(ROOT, "seeded", "RESULTS.md"), "w") as f:
         f.write("# Seeded changes against the checks\n\nWritten by tools/run_seeded_all.py (quick tier, %s scenarios per check; /repo at %s).\n\n| change | breaks | outcome of the property's check | first violation keys |\n|---|---|---|---|\n" % (seeds, sh("git", "-C", "/repo", "rev-parse", "--short", "HEAD").stdout.strip()))
         for r in rows: f.write("| %s | %s | %s | %s |\n" % r)
